@@ -481,6 +481,48 @@ def rule_r7(repo, run):
                           not bad, "the splicer block is only created when %s: for other declarations the user's code for "
                           "this named block is silently dropped" % sorted(set(bad)), m.loc(c))
     run.floor(R, "_create_splicer call sites", n, 40)
+    # every splicer file named on the command line is read: the suffix dispatcher has no way out before the read
+    sm = repo.module("splicer")
+    sf = sm.func("get_splicer_based_on_suffix")
+    rets = [x for x in ast.walk(sf) if isinstance(x, ast.Return)]
+    glob = [x.id for x in ast.walk(sf) if isinstance(x, ast.Name) and isinstance(x.ctx, ast.Load)
+            and x.id not in [a.arg for a in sf.args.args] and x.id not in ("os", "get_splicers")
+            and x.id not in [t.id for a in ast.walk(sf) if isinstance(a, ast.Assign) for t in ast.walk(a.targets[0]) if isinstance(t, ast.Name)]]
+    run.check(R, "splicer.get_splicer_based_on_suffix:always-reads", not rets and not glob,
+              "a splicer file can be skipped (%s): blocks of a file given on the command line are silently not read"
+              % (["early return"] * bool(rets) + ["depends on module state %s" % sorted(set(glob))] * bool(glob)), sm.loc(sf))
+    # the Fortran emitter names the blocks of a namespace's module after that namespace: after descending into
+    # nested namespaces the top splicer name is restored before the module is written
+    wf = repo.module("wrapf")
+    wn = wf.func("Wrapf.wrap_namespace")
+    ups = [c for c in ast.walk(wn) if isinstance(c, ast.Call) and (pyflow.call_name(c) or "") == "self._update_splicer_top"]
+    inner = [c for c in ups if "ns." in wf.seg(c.args[0])]
+    restore = [c for c in ups if "node." in wf.seg(c.args[0])]
+    wm = [c for c in ast.walk(wn) if isinstance(c, ast.Call) and (pyflow.call_name(c) or "") == "self.write_module"]
+    ok = bool(inner) and bool(restore) and bool(wm) and max(c.lineno for c in inner) < min(c.lineno for c in restore) < wm[0].lineno
+    if ok:
+        conds = [(wf.seg(t), pol) for t, pol in pyflow.dominating_tests(restore[0], stop=wn)]
+        ok = conds in ([("top", False)], [])
+    run.check(R, "wrapf.Wrapf.wrap_namespace:restore-splicer-top", ok,
+              "after wrapping nested namespaces (which rename the top splicer level) the namespace's own name must be "
+              "restored before its module is written; otherwise file_top/module_use/module_top of the outer module are "
+              "looked up under the inner namespace's name and the user's code is lost", wf.loc(wn))
+    # a declaration-level splicer forces the wrapper that contains it
+    wc = repo.module("wrapc")
+    for mod, q in ((wc, "Wrapc.wrap_function"), (wf, "Wrapf.wrap_function_impl")):
+        fn = mod.func(q)
+        tests = [t for t in ast.walk(fn) if isinstance(t, ast.If) and "node.splicer" in mod.seg(t.test)
+                 or isinstance(t, ast.If) and "_force" in mod.seg(t.test) and "is not None" in mod.seg(t.test)]
+        forced = False
+        for t in tests:
+            if "in node.splicer" in mod.seg(t.test) and pat.has(t.body, "need_wrapper = True"):
+                forced = True
+        reads = any("node.splicer" in mod.seg(x) for x in ast.walk(fn) if isinstance(x, (ast.Subscript, ast.Call, ast.Compare)))
+        if reads:
+            run.check(R, "%s.%s:declaration-splicer-forces-wrapper" % (mod.name, q), forced,
+                      "the declaration's own splicer (YAML `splicer:`) is looked up but does not force need_wrapper: for a "
+                      "function that needs no other wrapping the user's code is dropped together with the wrapper",
+                      mod.loc(fn))
 
 
 def run(repo, run, tier):
